@@ -1557,15 +1557,43 @@ def s_str(x=""):
     return builtins.str(x)
 
 
+_EXT = [0]
+
+
+def _extremum(vals, is_max):
+    """min / max of a sequence containing symbolic reals as ONE fresh value constrained to be an element that bounds all
+    others (no fork per comparison)"""
+    c = Ctx.cur
+    if c is None:
+        raise Unsupported("min/max of symbolic values outside an exploration")
+    _EXT[0] += 1
+    m = z3.Real("__ext%d" % _EXT[0])
+    ts, seen = [], set()
+    for v in vals:
+        t = SymReal.of(v).t
+        if t.get_id() not in seen:
+            seen.add(t.get_id())
+            ts.append(t)
+    if len(ts) == 1:
+        return SymReal(ts[0])
+    c.assume(z3.And([(m >= t) if is_max else (m <= t) for t in ts]))
+    c.assume(z3.Or([m == t for t in ts]))
+    return SymReal(m)
+
+
 def s_min(*a, **k):
     if len(a) == 2 and not k and any(is_sym(v) for v in a):
         return a[0] if (a[0] <= a[1]) else a[1]
+    if len(a) == 1 and not k and isinstance(a[0], (list, tuple)) and any(isinstance(v, SymReal) for v in a[0]):
+        return _extremum(a[0], False)
     return builtins.min(*a, **k)
 
 
 def s_max(*a, **k):
     if len(a) == 2 and not k and any(is_sym(v) for v in a):
         return a[0] if (a[0] >= a[1]) else a[1]
+    if len(a) == 1 and not k and isinstance(a[0], (list, tuple)) and any(isinstance(v, SymReal) for v in a[0]):
+        return _extremum(a[0], True)
     return builtins.max(*a, **k)
 
 
